@@ -22,6 +22,8 @@ import (
 	"github.com/gopcua/opcua/uacp"
 	"github.com/gopcua/opcua/uapolicy"
 	"github.com/gopcua/opcua/uasc"
+
+	"verifharness/internal/sched"
 )
 
 // ---------------------------------------------------------------- proxy
@@ -193,6 +195,7 @@ type Server struct {
 	mu          sync.Mutex
 	conn        *uacp.Conn
 	sc          *uasc.SecureChannel
+	goid        int64         // the goroutine that runs Receive on the server channel
 	clockOffset time.Duration // the server's clock runs this much ahead of ours
 	reqs        chan SrvReq
 	errs        []string
@@ -225,6 +228,7 @@ func NewServer(ack *uacp.Acknowledge, sec *SecOpts, chanID, tokenID, seq0 uint32
 }
 
 func (s *Server) run() {
+	s.goid = sched.GoID()
 	conn, err := s.ln.Accept(context.Background())
 	if err != nil {
 		s.addErr("accept: " + err.Error())
